@@ -9,7 +9,7 @@ func init() {
 func runC09(opt *Options) int {
 	lr := &laRun{
 		Opt:  opt,
-		Pkgs: []string{"xtype", "method", "generator", "builder", "."},
+		Pkgs: []string{"xtype", "method", "generator", "builder", "config", "."},
 		Kernels: []layera.Kernel{
 			{Name: "K10.sortedmembers", Pkg: "xtype", Harness: "VerifHarness_C09_SortedMembers", Unwind: 24, ReplayTries: 12},
 			{Name: "K10.unused", Pkg: "xtype", Harness: "VerifHarness_C09_Unused", Unwind: 24, ReplayTries: 12},
@@ -17,9 +17,11 @@ func runC09(opt *Options) int {
 			{Name: "K10.genmethods", Pkg: "generator", Harness: "VerifHarness_C09_GenMethods", Unwind: 24, ReplayTries: 12},
 			{Name: "K10.validatemethods", Pkg: "generator", Harness: "VerifHarness_C09_ValidateMethods", Unwind: 24, ReplayTries: 12},
 			func() layera.Kernel { k := kernelGenerateConverters("c09"); k.Name = "K8.writefiles"; return k }(),
+			{Name: "K10.extendorder", Pkg: "config", Harness: "VerifHarness_C09_ExtendOrder", Unwind: 24, E2E: "c09", Stub: []string{"(*github.com/jmattheis/goverter/pkgload.PackageLoader).GetMatching"}},
+			{Name: "K8.outputfile", Pkg: "config", Harness: "VerifHarness_C15_OutputFile", Unwind: 64, Stub: []string{"github.com/jmattheis/goverter/method.Parse"}, E2E: "c09"},
 			{Name: "K10.unknownfields", Pkg: "builder", Harness: "VerifHarness_C09_UnknownFields", Unwind: 24, ReplayTries: 12},
 		},
-		Funcs:  []string{"xtype.Enum.SortedMembers", "xtype.UsageFromMap", "xtype.UsageChecker.Used/Unused", "method.AvailableContextDebug", "method.(*Index).Register/GetAll", "generator.(*generator).getGenMethods", "generator.validateMethods", "builder.(*Struct).Assign (tail: configured fields that do not exist)", "builder.(*MethodContext).DefinedFields"},
+		Funcs:  []string{"xtype.Enum.SortedMembers", "xtype.UsageFromMap", "xtype.UsageChecker.Used/Unused", "method.AvailableContextDebug", "method.(*Index).Register/GetAll", "generator.(*generator).getGenMethods", "generator.validateMethods", "builder.(*Struct).Assign (tail: configured fields that do not exist)", "builder.(*MethodContext).DefinedFields", "config.parseConverterLine (extend, output:file arms)", "parse.File"},
 		Bounds: "maps with 2..3 entries whose keys are symbolic one-byte names (pairwise distinct) or fixed distinct names; the order of every range over a map is a symbolic choice over all permutations; each function runs twice per path and must agree with itself",
 		Assume: []string{
 			"only the map-iteration factor of C09 has an encodable kernel; repetition across processes, pattern order/overlap, -cwd vs chdir, relocation and histories of earlier runs are process / file-system level and outside",
